@@ -104,7 +104,11 @@ def o_contract(prog, lines):
                 tid = int(t[1])
                 if last_choice is not None and tid != last_choice:
                     bad.append((f"task {tid} ran user code although the last decision chose {last_choice}", "C08:chosen-runs"))
-                if len(t) >= 5:
+                if len(t) >= 4 and not t[3].isdigit():
+                    # `dtor` / `dropped` / `end` …: the operation that requested the yield never completed (its future was
+                    # aborted while suspended in it), so no op line will ever follow that decision
+                    pending_y.pop(tid, None)
+                elif len(t) >= 5:
                     name = op_name(P, t[2], t[3])
                     if pending_y.pop(tid, None) and not requests_yield(name):
                         bad.append((f"yielding flag was set for task {tid} whose operation was `{name}`, not a yield request", "C08:yield-flag"))
